@@ -112,7 +112,7 @@ func genCase(r *h.Run, kind string, i int) caseT {
 			c.Submitters = 1 + rng.Intn(5)
 			c.Tasks = 2 + rng.Intn(4) // small history: porcupine cross-check
 		} else {
-			c.Tasks = (100+rng.Intn(500))/c.Submitters + 1
+			c.Tasks = (60+rng.Intn(240))/c.Submitters + 1
 		}
 		c.NestedPct = []int{0, 0, 5, 20}[rng.Intn(4)]
 	}
@@ -529,8 +529,11 @@ func runPool(r *h.Run, c caseT) {
 		go func() {
 			defer wg.Done()
 			<-gate
-			for issued.Load() < at {
+			for spins := 0; issued.Load() < at; spins++ {
 				runtime.Gosched()
+				if spins > 2000 {
+					time.Sleep(50 * time.Microsecond)
+				}
 			}
 			stopCall.Store(tick())
 			p.Stop()
@@ -599,7 +602,8 @@ func runPool(r *h.Run, c caseT) {
 		if sc == 0 {
 			r.Violate(pre+":lost-task", fmt.Sprintf("%s: %d of %d tasks never ran although the pool was not stopped; stuck state (nothing running, no start/end event, >=20 samples over >=2 s of idle CPU); first: task %d Go [%d,%d]", cfg, dropped, total, firstLost.id, firstLost.call.Load(), firstLost.ret.Load()), c)
 		} else {
-			r.Violate(pre+":queued-tasks-dropped-by-stop", fmt.Sprintf("%s: %d task(s) whose Go had returned before Stop was called (tick %d) never ran; stuck state (nothing running, no start/end event, >=20 samples over >=2 s of idle CPU); first: task %d Go [%d,%d]; %d tasks ran, fork failures seen %d", cfg, dropped, sc, firstLost.id, firstLost.call.Load(), firstLost.ret.Load(), ran, hs.forkFails.Load()), c)
+			// one signature for every variant: the dispatcher exits on Stop without draining, whatever the caller
+			r.Violate("c19:taskpool:queued-tasks-dropped-by-stop", fmt.Sprintf("%s: %d task(s) whose Go had returned before Stop was called (tick %d) never ran; stuck state (nothing running, no start/end event, >=20 samples over >=2 s of idle CPU); first: task %d Go [%d,%d]; %d tasks ran, fork failures seen %d", cfg, dropped, sc, firstLost.id, firstLost.call.Load(), firstLost.ret.Load(), ran, hs.forkFails.Load()), c)
 		}
 	}
 	if m := maxRunning.Load(); m > int64(c.N) {
@@ -1093,9 +1097,9 @@ func main() {
 		}
 		return
 	}
-	nPool, nCap, nAsync := r.N(96, 2400), r.N(24, 360), r.N(320, 12000)
+	nPool, nCap, nAsync := r.N(96, 2400), r.N(24, 360), r.N(800, 30000)
 	if r.Phase == "race" {
-		nPool, nCap, nAsync = r.N(24, 400), 0, r.N(64, 1600)
+		nPool, nCap, nAsync = r.N(24, 400), 0, r.N(160, 3200)
 	}
 	if r.Shard == 0 {
 		agreed, illegal, unknown, dis := hist.SelfTest(r.Rand("c19/selftest", 0), r.N(80, 1500), 9, 100*time.Millisecond)
